@@ -1,3 +1,132 @@
 import FiberModel.DriverUtil
--- stub driver for C05; replaced when the property's model lands
-def main : IO Unit := pure ()
+import FiberModel.C05.Spec
+import FiberModel.C05.Facts
+/-
+Driver for C05. Case fields (after the id):
+  mode(0/1)  hist(`;`-separated requests or `-`)  probe  freshObs  fullDiff(`,`-list or `-`)  implObs
+request := method|path|query|flash|bad|script|host
+  query: `hexk=hexv,…` or `-`; flash: `n` or `c:<hex>`; bad: 0|1|2; script: `op:hexarg:…,…` or `-`
+-/
+open B DriverUtil C05
+
+def parsePairs (s : String) : Option (List (Bytes × Bytes)) :=
+  if s == "-" then some [] else
+  (s.splitOn ",").mapM fun p =>
+    match p.splitOn "=" with
+    | [k, v] => do some (← fromHex k, ← fromHex v)
+    | _ => none
+
+def isWord (s : Bytes) : Bool := !s.isEmpty && s.length ≤ 24 && s.all fun c => isLower c || isDigit c
+
+def parseAct (s : String) : Option Act :=
+  match s.splitOn ":" with
+  | ["vb", k, v] => do
+    let k ← fromHex k; let v ← fromHex v
+    if isWord k && isWord v then some (.vb k v) else none
+  | ["lo", k, v] => do
+    let k ← fromHex k; let v ← fromHex v
+    if isWord k && isWord v then some (.lo k v) else none
+  | ["wi", k, v, l] => do
+    let k ← fromHex k; let v ← fromHex v; let l ← (← fromHex l) |> decToNat?
+    if isWord k && isWord v && l ≤ 255 then some (.wi k v l) else none
+  | ["in"] => some .inp
+  | ["rs", n] => do
+    let n ← (← fromHex n) |> decToNat?
+    if [301, 302, 303, 307, 308].contains n then some (.rs n) else none
+  | ["to", p] => do
+    let p ← fromHex p
+    if (classify p).isSome then some (.to p) else none
+  | ["ba"] => some .ba
+  | ["bq"] => some .bq
+  | ["sh", k, v] => do
+    let k ← fromHex k; let v ← fromHex v
+    if (k == b "X-A" || k == b "X-B") && isWord v then some (.sh k v) else none
+  | ["bu"] => some .bu
+  | ["er", n] => do
+    let n ← (← fromHex n) |> decToNat?
+    if [400, 403, 404, 500, 503].contains n then some (.er n) else none
+  | ["ob"] => some .ob
+  | _ => none
+
+def parseReq (s : String) : Option Req :=
+  match s.splitOn "|" with
+  | [m, p, q, fl, bad, sc, host] => do
+    let m ← fromHex m
+    let p ← fromHex p
+    let host ← fromHex host
+    if host.isEmpty || host.length > 40 || !((splitOn host 46).all isWord) then none
+    let q ← parsePairs q
+    let fl ← if fl == "n" then some none
+             else if fl.startsWith "c:" then (fromHex (fl.drop 2).toString).map some else none
+    let bad ← bad.toNat?
+    let sc ← if sc == "-" then some [] else (sc.splitOn ",").mapM parseAct
+    -- domain guard: the modelled vocabulary
+    if !([b "GET", b "POST", b "PUT", b "FOO"].contains m) then none
+    if (classify p).isNone || bad > 2 then none
+    if !(q.all fun kv => isWord kv.1 && isWord kv.2) then none
+    -- `n` values the int binder sees: decimal words short enough not to overflow
+    if !(q.all fun kv => kv.1 != b "n" || !allDigits kv.2 || kv.2.length ≤ 18) then none
+    if (sc.filter (· == .ob)).length > 1 then none
+    some { method := m, path := p, host := host, query := q, flash := fl, bad := bad, script := sc }
+  | _ => none
+
+def hx (s : Bytes) : String := toHexField s
+
+def fmtMsg (m : Msg) : String := s!"{hx m.key}.{hx m.value}.{m.level}.{if m.old then 1 else 0}"
+
+def insertStr (s : String) : List String → List String
+  | [] => [s]
+  | x :: xs => if s < x then s :: x :: xs else x :: insertStr s xs
+
+def sortStrs (l : List String) : List String := l.foldl (fun acc s => insertStr s acc) []
+
+def listField (l : List String) : String := if l.isEmpty then "-" else ",".intercalate l
+
+def renderObs (o : Obs) : String :=
+  let r := o.resp
+  let sc := match r.setFlash with
+    | .none => "none"
+    | .expire => "expire"
+    | .msgs ms => "m:" ++ listField (sortStrs (ms.map fmtMsg))
+  let xh := (if r.mw then [b "X-Mw=1"] else []) ++ (match r.xa with | some v => [b "X-A=" ++ v] | none => []) ++
+            (match r.xb with | some v => [b "X-B=" ++ v] | none => [])
+  let (ob, params, msgs, old, view, locals, base) := match o.seen with
+    | some s => ("1", hexListField s.params, listField (s.msgs.map fmtMsg), listField (sortStrs (s.old.map fun (m : Msg) => fmtMsg { m with level := 0 })),
+                 hexListField (s.view.flatMap fun (p : Bytes × Bytes) => [p.1, p.2]), hexListField s.locals, hx s.base)
+    | none => ("0", "-", "-", "-", "-", "-", "-")
+  s!"st={r.status};ct={hx r.ctype};loc={hx r.location};sc={sc};xh={hexListField xh};al={hx r.allow};body={hx r.body};" ++
+  s!"ob={ob};params={params};msgs={msgs};old={old};view={view};locals={locals};base={base}"
+
+def facts : RFacts := theFacts
+
+def handleCase (f : List String) : Except String Verdict := do
+  match f with
+  | [id, mode, hist, probe, fresh, diff, impl] =>
+    if impl == "invalid" then throw "outside-domain: request outside the structured vocabulary"
+    if mode != "0" && mode != "1" then throw "outside-domain: mode"
+    let hs ← if hist == "-" then pure [] else
+      match (hist.splitOn ";").mapM parseReq with
+      | some l => pure l
+      | none => throw "outside-domain: history"
+    if hs.length > 12 then throw "outside-domain: history too long"
+    let some p := parseReq probe | throw "outside-domain: probe"
+    if p.bad != 0 then throw "outside-domain: malformed probe"
+    let diffs := if diff == "-" then [] else diff.splitOn ","
+    -- model: one worker, so sync.Pool hands back the most recently released object
+    let lifo : Pick := ⟨0, 0⟩
+    let mo := match probeAfter facts (hs.map fun r => (r, lifo)) p lifo with
+      | some o => renderObs o
+      | none => "noresponse"
+    let served := hs.filter (·.bad == 0)
+    let tags :=
+      [s!"hist{min hs.length 8}", if mode == "1" then "keepalive" else "conn-per-request"] ++
+      (if p.flash.isSome then ["probe-flash"] else []) ++
+      (if served.any (·.flash.isSome) then ["hist-flash"] else []) ++
+      (if hs.any (·.bad != 0) then ["hist-malformed"] else []) ++
+      (if served.any (fun r => r.script.any fun a => match a with | .wi .. | .inp | .rs _ => true | _ => false) then ["hist-redirect-state"] else []) ++
+      (if served.any (fun r => r.script.any fun a => match a with | .vb .. | .lo .. | .ba | .bu => true | _ => false) then ["hist-ctx-state"] else []) ++
+      (if !served.isEmpty then ["nt"] else [])
+    pure { id := id, modelObs := mo, implObs := impl, spec := specViolation fresh impl diffs, tags := tags }
+  | _ => throw s!"outside-domain: expected 7 fields, got {f.length}"
+
+def main : IO Unit := run handleCase
